@@ -40,6 +40,18 @@ theorem C17_noauth (cfg : Cfg) (hdr : Bytes) (hb : cfg.basic = none) (ht : cfg.t
     authChain cfg hdr = .api :=
   noauth_passes cfg hdr hb ht
 
+/-- **C17 (every API path goes through the chain).** The request of the model is (URL path, Authorization header);
+    the path only selects the side (`/api…` after the base path → chain, anything else → the web UI's handler) and the
+    chain never looks at it again: for EVERY continuation `rest` of `/api` — `/v1/docs/../dags`, `/v1//dags`,
+    `/v1/swagger.json/../dags`, … — the decision is `authChain cfg hdr`. So the model has no path-dependent exemption;
+    that the code has none either is what the tie of `configureAPI` (the router is handed WHOLE to
+    `SetupGlobalMiddleware`) and the real-server path stream of the check (`path_stream` in lib/p_c17.py: every route of
+    the spec × ~35 raw spellings × credentials) establish — which handler the go-openapi router picks after the chain
+    (it matches on the cleaned, still escaped path) is NOT modelled. -/
+theorem C17_path_blind (cfg : Cfg) (rest hdr : Bytes) :
+    decide cfg (cfg.basePath ++ apiPrefix ++ rest) hdr = authChain cfg hdr :=
+  decide_api_any_path cfg rest hdr
+
 /-- base64 round trip used by completeness -/
 theorem C17_base64 (bs : Bytes) (h : WFBytes bs) : decode (encode bs) = some bs := decode_encode bs h
 
@@ -52,6 +64,8 @@ example : authChain cfgBoth [] = .unauthorized := by decide                     
 example : authChain cfgBoth (bearer ++ [32] ++ [112, 58, 113]) = .unauthorized := by decide       -- password as bearer
 example : decide { cfgBoth with basePath := [47, 120] } [47, 120, 47, 97, 112, 105, 47, 118] [] = .unauthorized := by decide
 example : decide { cfgBoth with basePath := [47, 120] } [47, 97, 112, 105] [] = .notFound := by decide
+-- "/api/v1/docs/../dags" without a header: 401 like any other API path
+example : decide cfgBoth ([47, 97, 112, 105] ++ [47, 118, 49, 47, 100, 111, 99, 115, 47, 46, 46, 47, 100, 97, 103, 115]) [] = .unauthorized := by decide
 
 end BdModel.P17
 
@@ -60,4 +74,5 @@ end BdModel.P17
 #print axioms BdModel.P17.C17_complete_basic
 #print axioms BdModel.P17.C17_complete_token
 #print axioms BdModel.P17.C17_noauth
+#print axioms BdModel.P17.C17_path_blind
 #print axioms BdModel.P17.C17_base64
